@@ -337,7 +337,11 @@ async fn session<S: AsyncRead + AsyncWrite + Unpin + Send + 'static>(mut raw: S,
                         let _ = raw.write_all(&bind_response(id, 49)).await;
                     }
                 }
-                Some(Pdu::Unbind) => return,
+                Some(Pdu::Unbind) => {
+                    // an UnbindRequest in the clear is an LDAP message in the clear like any other
+                    logev(&log, json!({"e": "clear", "k": "unbind", "at": at, "fam": fam}));
+                    return;
+                }
                 Some(Pdu::Other) | None => logev(&log, json!({"e": "clear", "k": "other", "at": at, "fam": fam})),
             }
         }
@@ -502,6 +506,7 @@ struct CallObs {
     detail: String,
     ms: u64,
     bind: Option<i64>, // rc of the bind after establishment, -1 = error/timeout
+    held: i64,         // message IDs the handle's bookkeeping holds at the moment establishment returned (-1 = not observed)
 }
 
 fn panic_text(e: Box<dyn std::any::Any + Send>) -> String {
@@ -520,7 +525,7 @@ async fn call_async(settings: LdapConnSettings, url: String, bound_ms: u64, log:
     let ah = h.abort_handle();
     let r = tokio::time::timeout(Duration::from_millis(bound_ms), h).await;
     let ms = t0.elapsed().as_millis() as u64;
-    let mut o = CallObs { result: String::new(), cls: String::new(), detail: String::new(), ms, bind: None };
+    let mut o = CallObs { result: String::new(), cls: String::new(), detail: String::new(), ms, bind: None, held: -1 };
     match r {
         Err(_) => {
             ah.abort();
@@ -537,8 +542,11 @@ async fn call_async(settings: LdapConnSettings, url: String, bound_ms: u64, log:
         }
         Ok(Ok(Ok((conn, mut ldap)))) => {
             o.result = "ok".into();
+            // nothing is outstanding when with_settings() returns: whatever the establishment exchanged (the StartTLS
+            // request) must have given its message ID back
+            o.held = ldap.verif_msgmap().1.len() as i64;
             if let Some(l) = &log {
-                logev(l, json!({"e": "result", "r": "ok"}));
+                logev(l, json!({"e": "result", "r": "ok", "held": o.held}));
             }
             let drv = tokio::spawn(async move {
                 let _ = conn.drive().await;
@@ -592,9 +600,9 @@ fn call_sync(settings: LdapConnSettings, url: String, bound_ms: u64) -> CallObs 
             if result == "ok" {
                 ms = ms.saturating_sub(BIND_MS); // upper bound of the bind's share when it timed out; only used for `late`
             }
-            CallObs { result, cls, detail, ms, bind }
+            CallObs { result, cls, detail, ms, bind, held: -1 }
         }
-        Err(_) => CallObs { result: "pending".into(), cls: String::new(), detail: String::new(), ms: t0.elapsed().as_millis() as u64, bind: None },
+        Err(_) => CallObs { result: "pending".into(), cls: String::new(), detail: String::new(), ms: t0.elapsed().as_millis() as u64, bind: None, held: -1 },
     }
 }
 
@@ -643,6 +651,10 @@ fn est_key(cfg: &Value, sc: &Value, o: &CallObs, evs: &[Value], verdict: &[Strin
             "bindseen" if s(e, "ch") == "clear" => return format!("c17:cleartext:{}-bind", mode),
             _ => {}
         }
+    }
+    // an establishment that is legitimate in every other respect, but whose bookkeeping is not empty (C13's, not C17's)
+    if o.result == "ok" && o.held > 0 && o.bind == Some(49) && verdict.iter().any(|v| v == "ok") {
+        return format!("c13:establishment:{}:id-still-reserved-when-established", mode);
     }
     let verify = cfg["verify"].as_bool().unwrap_or(true);
     if mode == "starttls" && s(sc, "resp") != "success" && o.result != "ok" && evs.iter().any(|e| s(e, "e") == "hello") {
@@ -763,7 +775,7 @@ async fn run_script_once(cfg: Value, sc: Value, verdict: Vec<String>, tls: Tls, 
     for e in all {
         match s(&e, "e").as_str() {
             "tlsdone" | "tlsfail" => srv.push(e),
-            "result" => evs.push(json!({"e": "result", "r": s(&e, "r"), "late": e["late"].as_bool().unwrap_or(false)})),
+            "result" => evs.push(json!({"e": "result", "r": s(&e, "r"), "late": e["late"].as_bool().unwrap_or(false), "held": e["held"].as_i64().unwrap_or(-1)})),
             "accept" | "hello" => evs.push(json!({"e": s(&e, "e")})),
             "clear" => evs.push(json!({"e": "clear", "k": s(&e, "k")})),
             "bindseen" => evs.push(json!({"e": "bindseen", "ch": s(&e, "ch")})),
@@ -786,7 +798,8 @@ async fn run_script_once(cfg: Value, sc: Value, verdict: Vec<String>, tls: Tls, 
         && !late
         // pending only while the server is stalling: on the StartTLS request, or on the ClientHello it has received
         && (o.result != "pending" || s(&sc, "resp") == "stall" || (s(&sc, "hs") == "stall" && evs.iter().any(|e| s(e, "e") == "hello")))
-        && (o.result != "ok" || o.bind == Some(49));
+        && (o.result != "ok" || o.bind == Some(49))
+        && (o.result != "ok" || o.held == 0);
     let key = est_key(&cfg, &sc, &o, &evs, &verdict);
     let rec = json!({"kind": "script", "cfg": cfg, "script": sc, "ev": evs, "srv": srv, "url": url,
                      "out": {"result": o.result, "cls": o.cls, "detail": o.detail, "ms": o.ms, "bind": o.bind.unwrap_or(-9)}, "key": key});
